@@ -105,13 +105,13 @@ example : NoHuge Flatland.Generated.C04.pyTables (.int 12345) = true := by
 /-- **reset_text** (partial: `Coherent`, see KF-C04-c) — after a successful `set`, setting `.u`
     again completes and reproduces the same `.u`. -/
 theorem reset_text_partial (E : Env) (hT : E.T.OK) (k : Kind) (x : Native) (r : SetResult)
-    (hm : Modelled k = true) (hc : Coherent k = true) (hcn : CoherentNone k = true)
+    (hm : Modelled k = true) (hc : Coherent k = true) (hcn : r.st.value = .none → CoherentNone k = true)
     (hw : WidthOK E.T k = true) (hx : NoHuge E.T x = true) (hwf : Native.WF x = true)
     (h : setScalar E k x = .ok r) (hf : r.flag = true) :
     ∃ r', setScalar E k (.str r.st.u) = .ok r' ∧ r'.st.u = r.st.u := by
-  obtain ⟨v, ha, _, hu⟩ := set_success E k x r h hf
+  obtain ⟨v, ha, hval, hu⟩ := set_success E k x r h hf
   have hv := adapt_value E hT k x v hx hwf ha
-  rcases reset_u_value E hT k hm hc hw v r.st.u hv hu (fun _ => hcn) with h1 | ⟨v', h1, h2⟩
+  rcases reset_u_value E hT k hm hc hw v r.st.u hv hu (fun hn => hcn (hval.trans hn)) with h1 | ⟨v', h1, h2⟩
   · exact ⟨⟨⟨.str r.st.u, .none, r.st.u⟩, false, [false]⟩, by simp [setScalar, h1, uOfFailed], rfl⟩
   · exact ⟨⟨⟨.str r.st.u, v', r.st.u⟩, true, [true]⟩, by simp [setScalar, h1, h2], rfl⟩
 
@@ -249,12 +249,12 @@ theorem reset_u_all (E : Env) (hT : E.T.OK) (k : Kind) (hst : OpaqueOK E k)
 
 /-- **reset_text** for every kind, Float and Decimal included, given a text-stable conversion table -/
 theorem reset_text_all_partial (E : Env) (hT : E.T.OK) (k : Kind) (hst : OpaqueOK E k) (x : Native) (r : SetResult)
-    (hc : Coherent k = true) (hcn : CoherentNone k = true) (hw : WidthOK E.T k = true)
+    (hc : Coherent k = true) (hcn : r.st.value = .none → CoherentNone k = true) (hw : WidthOK E.T k = true)
     (hx : NoHuge E.T x = true) (hwf : Native.WF x = true)
     (h : setScalar E k x = .ok r) (hf : r.flag = true) :
     ∃ r', setScalar E k (.str r.st.u) = .ok r' ∧ r'.st.u = r.st.u := by
-  obtain ⟨v, ha, _, hu⟩ := set_success E k x r h hf
-  rcases reset_u_all E hT k hst hc hw x v r.st.u hx hwf ha hu (fun _ => hcn) with h1 | ⟨v', h1, h2⟩
+  obtain ⟨v, ha, hval, hu⟩ := set_success E k x r h hf
+  rcases reset_u_all E hT k hst hc hw x v r.st.u hx hwf ha hu (fun hn => hcn (hval.trans hn)) with h1 | ⟨v', h1, h2⟩
   · exact ⟨⟨⟨.str r.st.u, .none, r.st.u⟩, false, [false]⟩, by simp [setScalar, h1, uOfFailed], rfl⟩
   · exact ⟨⟨⟨.str r.st.u, v', r.st.u⟩, true, [true]⟩, by simp [setScalar, h1, h2], rfl⟩
 
@@ -276,6 +276,42 @@ theorem norm_idem_all (E : Env) (hT : E.T.OK) (hE : EnvTotal E) (k : Kind) (hst 
     simp only [uOfFailed, Except.ok.injEq] at hu
     rw [← hu, hn]
     exact hu.symm
+
+/-- the table check is sound: what the runner (and, independently, the harness) evaluates on the
+    recorded conversions of a case is the hypothesis `OpaqueStable` for the environment of that case -/
+theorem opaqueStableOn_sound (T : Tables) (entries : List (Bool × Native × Option Tok)) (dec : Bool)
+    (hdec : ∃ e ∈ entries, e.1 = dec) (h : opaqueStableOn T entries = true) :
+    OpaqueStable ⟨T, tableConv entries⟩ dec := by
+  simp only [opaqueStableOn, Bool.and_eq_true, List.all_eq_true] at h
+  obtain ⟨h1, h2⟩ := h
+  obtain ⟨e0, he0, rfl⟩ := hdec
+  constructor
+  · have := h1 e0 he0
+    cases hc : tableConv entries e0.1 (.str []) with
+    | none => simp [hc] at this
+    | some o => cases o with
+      | none => exact hc
+      | some t => simp [hc] at this
+  · intro x t hx
+    simp only [tableConv, Option.map_eq_some_iff] at hx
+    obtain ⟨e, hfind, het⟩ := hx
+    have hmem := List.mem_of_find?_eq_some hfind
+    have hd : e.1 = e0.1 := by
+      have := List.find?_some hfind
+      simp only [Bool.and_eq_true, beq_iff_eq] at this
+      exact this.1
+    have := h2 e hmem
+    rw [het] at this
+    simp only at this
+    rw [hd] at this
+    cases hc : tableConv entries e0.1 (.str (strip T (tokText t))) with
+    | none => simp [hc] at this
+    | some o =>
+      cases o with
+      | none => exact Or.inl hc
+      | some t' =>
+        simp only [hc, beq_iff_eq] at this
+        exact Or.inr ⟨t', hc, this⟩
 
 /-- the full re-set clause: no hypothesis on the Boolean configuration -/
 def C04_Full_reset_u : Prop :=
@@ -345,14 +381,14 @@ example : ExactInput (.date true) (.date 2020 1 2) = true := rfl
 
 open Flatland.C04
 
-theorem prefixSigs_ne (i : Nat) (sigs : List Sig) : ∀ s ∈ prefixSigs i sigs, s.1 ≠ [] := by
+theorem prefixSigs_ne (i : Nat) (sigs : List Sig) : ∀ s ∈ prefixSigs i sigs, s.1 ≠ some [] := by
   intro s hs
   unfold prefixSigs at hs
   obtain ⟨t, _, rfl⟩ := List.mem_map.mp hs
-  simp
+  cases t.1 <;> simp
 
 theorem mergeCalls_ne (runs : List (Nat × ChildRun)) (n : Nat) :
-    ∀ c ∈ mergeCalls runs n, ∀ s ∈ c.2, s.1 ≠ [] := by
+    ∀ c ∈ mergeCalls runs n, ∀ s ∈ c.2, s.1 ≠ some [] := by
   intro c hc s hs
   unfold mergeCalls at hc
   obtain ⟨j, _, hj⟩ := List.mem_filterMap.mp hc
@@ -387,6 +423,21 @@ theorem scalarSetTrace_sigs (E : Env) (k : Kind) (old : SState) (x : Native) (st
     obtain ⟨rfl, rfl, rfl⟩ := h
     rfl
 
+theorem keepPieces_ne (prune : Bool) (l : List (SState × Bool × List (Bool × SState))) (i : Nat) :
+    ∀ s ∈ (keepPieces prune l i).2, s.1 ≠ some [] := by
+  induction l generalizing i with
+  | nil => intro s hs; simp [keepPieces] at hs
+  | cons r rest ih =>
+    intro s hs
+    simp only [keepPieces] at hs
+    split at hs
+    · rcases List.mem_append.mp hs with h | h
+      · obtain ⟨p, _, rfl⟩ := List.mem_map.mp h; simp
+      · exact ih i s h
+    · rcases List.mem_append.mp hs with h | h
+      · obtain ⟨p, _, rfl⟩ := List.mem_map.mp h; simp
+      · exact ih (i + 1) s h
+
 /-- **signals / signal_after_final** — a completed `set()` of any element kind logs exactly one
     entry for that element, as the last entry, with `adapted` equal to the returned flag AND with
     the element's final state as the state a listener sees at that moment; the entries before it
@@ -395,7 +446,7 @@ theorem scalarSetTrace_sigs (E : Env) (k : Kind) (old : SState) (x : Native) (st
     proof fail.) -/
 theorem signals_spec (E : Env) (S : Schema) (old : Elem) (x : Input) (out : SetOut)
     (h : setElem E S old x = .ok out) :
-    ∃ pre, out.sigs = pre ++ [([], out.flag, out.elem)] ∧ ∀ s ∈ pre, s.1 ≠ [] := by
+    ∃ pre, out.sigs = pre ++ [(some [], out.flag, out.elem)] ∧ ∀ s ∈ pre, s.1 ≠ some [] := by
   cases S with
   | scalar k =>
     cases x with
@@ -462,46 +513,50 @@ theorem signals_spec (E : Env) (S : Schema) (old : Elem) (x : Input) (out : SetO
     · split at h
       · simp at h
       · simp only [Except.ok.injEq] at h; subst h
-        refine ⟨_, rfl, ?_⟩
-        intro s hs
-        obtain ⟨⟨i, o⟩, _, hi⟩ := List.mem_flatMap.mp hs
-        exact prefixSigs_ne i _ s hi
+        exact ⟨_, rfl, keepPieces_ne _ _ _⟩
 
 /-- **signal_after_final** — in every completed `set()`, of every element kind and for every
     input, the element's own signal is the last one and the snapshot it carries (what a listener
     can read from the element inside the handler) is the element's final state -/
 theorem signal_after_final (E : Env) (S : Schema) (old : Elem) (x : Input) (out : SetOut)
-    (h : setElem E S old x = .ok out) : out.sigs.getLast? = some ([], out.flag, out.elem) := by
+    (h : setElem E S old x = .ok out) : out.sigs.getLast? = some (some [], out.flag, out.elem) := by
   obtain ⟨pre, hs, _⟩ := signals_spec E S old x out h
   rw [hs]; simp
 
 /-! ### the returned flag of a container is the conjunction of its members' flags -/
 
 /-- the `adapted` flags signalled by the direct children, in order -/
-def directFlags (sigs : List Sig) : List Bool := (sigs.filter fun s => s.1.length == 1).map (·.2.1)
+def depth1 : Option (List Nat) → Bool
+  | some [_] => true
+  | _ => false
+
+def directFlags (sigs : List Sig) : List Bool := (sigs.filter fun s => depth1 s.1).map (·.2.1)
 
 theorem directFlags_append (a b : List Sig) : directFlags (a ++ b) = directFlags a ++ directFlags b := by
   simp [directFlags]
 
-theorem directFlags_root (b : Bool) (e : Elem) : directFlags [([], b, e)] = [] := by simp [directFlags]
+theorem directFlags_root (b : Bool) (e : Elem) : directFlags [(some [], b, e)] = [] := by simp [directFlags, depth1]
 
 /-- a completed child set contributes exactly its own flag at depth 1 -/
 theorem directFlags_prefix (i : Nat) (sigs : List Sig) (flag : Bool) (snap : Elem)
-    (h : ∃ pre, sigs = pre ++ [([], flag, snap)] ∧ ∀ s ∈ pre, s.1 ≠ []) :
+    (h : ∃ pre, sigs = pre ++ [(some [], flag, snap)] ∧ ∀ s ∈ pre, s.1 ≠ some []) :
     directFlags (prefixSigs i sigs) = [flag] := by
   obtain ⟨pre, rfl, hpre⟩ := h
   unfold prefixSigs directFlags
   rw [List.map_append, List.filter_append]
-  have h1 : List.filter (fun s : Sig => s.1.length == 1) (List.map (fun s : Sig => (i :: s.1, s.2)) pre) = [] := by
+  have h1 : List.filter (fun s : Sig => depth1 s.1) (List.map (fun s : Sig => (s.1.map (i :: ·), s.2)) pre) = [] := by
     apply List.filter_eq_nil_iff.mpr
     intro s hs
     obtain ⟨t, ht, rfl⟩ := List.mem_map.mp hs
     have := hpre t ht
     cases hp : t.1 with
-    | nil => exact absurd hp this
-    | cons a l => simp [hp]
+    | none => simp [depth1]
+    | some l =>
+      cases l with
+      | nil => exact absurd hp this
+      | cons a l' => simp [depth1]
   rw [h1]
-  simp
+  simp [depth1]
 
 theorem directFlags_flatMap {α} (l : List α) (f : α → List Sig) (g : α → Bool)
     (h : ∀ a ∈ l, directFlags (f a) = [g a]) : directFlags (l.flatMap f) = l.map g := by
@@ -542,11 +597,27 @@ theorem mem_indexed {α} (l : List α) (p : Nat × α) (h : p ∈ indexed l) : p
   unfold indexed at h
   exact (List.of_mem_zip h).2
 
-/-- **joined_flag** — `JoinedString.set` that gets as far as its members (any input but a
-    non-iterable) returns the conjunction of the flags its members signalled -/
+theorem directFlags_keepPieces (prune : Bool) (l : List (SState × Bool × List (Bool × SState))) (i : Nat)
+    (h : ∀ r ∈ l, r.2.2 = [(r.2.1, r.1)]) :
+    directFlags (keepPieces prune l i).2 = (keepPieces prune l i).1.map (·.2) := by
+  induction l generalizing i with
+  | nil => rfl
+  | cons r rest ih =>
+    have hr := h r (by simp)
+    have ih' := fun j => ih j (fun x hx => h x (List.mem_cons_of_mem _ hx))
+    simp only [keepPieces]
+    split
+    · simp only [directFlags_append, hr, ih' i]
+      simp [directFlags, depth1]
+    · simp only [directFlags_append, hr, ih' (i + 1)]
+      simp [directFlags, depth1]
+
+/-- **joined_flag** — `JoinedString.set` that gets as far as its pieces (any input but a
+    non-iterable) returns the conjunction of the flags signalled by the members it KEPT (a pruned
+    piece signals from outside the tree and does not count) -/
 theorem joined_flag (E : Env) (sep : Str) (sp : Splitter) (prune : Bool) (k : Kind) (old : Elem) (x : Input)
     (out : SetOut) (h : setElem E (.joined sep sp prune k) old x = .ok out)
-    (hne : out.sigs ≠ [([], false, Elem.joined [])] ∨ out.flag = true) :
+    (hne : out.sigs ≠ [(some [], false, Elem.joined [])] ∨ out.flag = true) :
     out.flag = (directFlags out.sigs).all id := by
   simp only [setElem] at h
   split at h
@@ -559,21 +630,10 @@ theorem joined_flag (E : Env) (sep : Str) (sp : Splitter) (prune : Bool) (k : Ki
     · simp only [Except.ok.injEq] at h
       subst h
       simp only [directFlags_append, directFlags_root, List.append_nil]
-      rw [directFlags_flatMap _ _ (fun p => p.2.2.1)]
-      · simp only [List.all_map, Function.comp_def, id]
-        unfold indexed
-        generalize hl : List.filterMap _ _ = oks
-        clear hl
-        have : ∀ (l : List (SState × Bool × List (Bool × SState))) (n : Nat),
-            (List.zip (List.range' n l.length) l).all (fun p => p.2.2.1) = l.all (·.2.1) := by
-          intro l
-          induction l with
-          | nil => intro n; rfl
-          | cons a t ih => intro n; simp [List.range'_succ, ih]
-        simpa [List.range_eq_range'] using (this oks 0).symm
-      · rintro ⟨i, r⟩ hr
-        have hmem := mem_indexed _ _ hr
-        obtain ⟨o, ho, hor⟩ := List.mem_filterMap.mp hmem
+      rw [directFlags_keepPieces]
+      · simp [List.all_map, Function.comp_def]
+      · intro r hr
+        obtain ⟨o, ho, hor⟩ := List.mem_filterMap.mp hr
         obtain ⟨v, _, rfl⟩ := List.mem_map.mp ho
         cases hres : scalarSetTrace E k blankState v with
         | error e => simp [hres] at hor
@@ -581,10 +641,7 @@ theorem joined_flag (E : Env) (sep : Str) (sp : Splitter) (prune : Bool) (k : Ki
           simp only [hres, Option.some.injEq] at hor
           subst hor
           obtain ⟨st, flag, sigs⟩ := r'
-          have hsig := scalarSetTrace_sigs E k _ v st flag sigs hres
-          subst hsig
-          apply directFlags_prefix i _ flag (Elem.scalar st)
-          exact ⟨[], rfl, by simp⟩
+          exact scalarSetTrace_sigs E k _ v st flag sigs hres
 
 theorem runSets_calls (step : Elem → Input → Except CRaise SetOut) (e : Elem) (inputs : List (Nat × Input)) :
     ∀ c ∈ (runSets step e inputs).calls, ∃ e' x out, step e' x = .ok out ∧ c.2 = (out.flag, out.sigs) := by
@@ -653,7 +710,7 @@ example :
         (.list [.list [.leaf (.str "a".toList), .leaf (.str "x".toList)],
                 .list [.leaf (.str "l".toList), .list [.leaf (.str "p".toList), .leaf (.str "q".toList)]],
                 .list [.leaf (.str "a".toList), .leaf .none]])).toOption.map (fun o => (o.flag, o.sigs.map fun s => (s.1, s.2.1))) =
-      some (true, [([0], true), ([1, 0], true), ([1, 1], true), ([1], true), ([0], true), ([], true)]) := by
+      some (true, [(some [0], true), (some [1, 0], true), (some [1, 1], true), (some [1], true), (some [0], true), (some [], true)]) := by
   decide
 
 end Flatland.C04.Proofs
